@@ -80,7 +80,7 @@ def tour_histories(seed, quick):
     H = []
     rng = random.Random(seed)
     for kind, cfg in ((16, 'MCImplSim16.cfg'), (32, 'MCImplSim32.cfg')):
-        beh = sim_behaviours(cfg, 120 if quick else 3000, 150, seed + kind)
+        beh = sim_behaviours(cfg, 120 if quick else 1200, 150, seed + kind)
         for i, labels in enumerate(beh):
             H.append(to_history('T%d-%d' % (kind, i), labels, kind, rng.choice(fsgen.BOUNDS[:2])))
     return H
